@@ -187,6 +187,13 @@ func runC20(c *Ctx) {
 		for _, l := range strings.Split(string(b), "\n") {
 			var k string
 			var n int64
+			if strings.HasPrefix(l, "VIOL ") {
+				parts := strings.SplitN(l, " ", 3)
+				if len(parts) == 3 {
+					c.Violation("transports:"+parts[1], parts[2], map[string]any{"seed": c.Seed + int64(rep), "output": filepath.Join(dir, "child.out")})
+				}
+				continue
+			}
 			if _, e := fmt.Sscanf(l, "COUNT %s %d", &k, &n); e == nil {
 				c.Ev.Count("transport_"+k, n)
 				if strings.HasPrefix(k, "exchanges_") {
@@ -198,6 +205,14 @@ func runC20(c *Ctx) {
 		races := racelog.ParseFiles(filepath.Join(dir, "race.*"))
 		c20ReportSanitizers(c, "transports", races, readLinesFile(filepath.Join(dir, "pool.log")), readLinesFile(filepath.Join(dir, "hook.log")))
 	}
+	// ---- (D) hostile input: the error paths of the decoder release what they had taken from the
+	// pool; the decoder monitor of C01 runs here with only ownership reports judged (double release,
+	// write after release, races), crashes and hangs are C01's
+	c.sigFilter = func(sig string) bool {
+		return strings.Contains(sig, "-report:") || strings.HasPrefix(sig, "data-race") || strings.HasPrefix(sig, "checkptr")
+	}
+	c01Decoder(c)
+	c.sigFilter = nil
 	// ---- (C) in-process cache: large values overwritten while readers are delayed between lookup and copy
 	c07Stress(c)
 	c.Ev.Sample(map[string]any{"workload": "e2e-quarantine", "listeners": allListeners, "abandon_probability": 0.08, "cache_bytes": 48 * 1024, "delay_point": "memcache.get=sleep(300us,25%)"})
@@ -283,6 +298,10 @@ func c20TransportChild(args []string) int {
 						name := fmt.Sprintf("ok-n%d-d%d-u%dx%d.x.test.", r.Range(1, 8), r.Intn(4), w, i)
 						if r.P(0.1) {
 							name = "tc-" + name // udp: forces the TCP fallback
+						} else if r.P(0.15) {
+							// the server closes the connection after this reply: the next exchange that
+							// picks it from the pool fails on a reused connection and is retried
+							name = "ok-fin-" + name[3:]
 						}
 						id := uint16(r.Intn(65536))
 						q := mkQuery(id, name, 1, 1, true)
@@ -314,6 +333,23 @@ func c20TransportChild(args []string) int {
 			wg.Wait()
 			time.Sleep(300 * time.Millisecond) // let abandoned workers finish under the sanitizers
 			u.Close()
+			// what the server received must be the queries that were asked, as they were asked
+			malformed, foreign := 0, 0
+			for _, ql := range s.Log() {
+				if ql.BadQuery != "" {
+					if malformed++; malformed == 1 {
+						fmt.Printf("VIOL upstream-received-malformed-query:%s the %s server received a frame that is not a query (%s): a buffer was written to the connection after it had been released\n", scheme, scheme, ql.BadQuery)
+					}
+				} else if !strings.HasSuffix(ql.Name, ".x.test.") {
+					if foreign++; foreign == 1 {
+						fmt.Printf("VIOL upstream-received-unasked-query:%s the %s server received a query for %q which nobody asked\n", scheme, scheme, ql.Name)
+					}
+				}
+			}
+			if wrong.Load() > 0 {
+				fmt.Printf("VIOL wrong-message-returned:%s %d exchanges over %s returned a message with a foreign id or without a question\n", scheme, wrong.Load(), scheme)
+			}
+			fmt.Printf("COUNT server_queries_%s %d\n", scheme, len(s.Log()))
 			fmt.Printf("COUNT exchanges_%s %d\nCOUNT ok_%s %d\nCOUNT cancelled_%s %d\nCOUNT failed_%s %d\nCOUNT wrong_%s %d\n",
 				scheme, ok.Load()+cancelled.Load()+failed.Load(), scheme, ok.Load(), scheme, cancelled.Load(), scheme, failed.Load(), scheme, wrong.Load())
 		}(si, scheme)
